@@ -5,6 +5,7 @@
 From Coq Require Import List ZArith Bool.
 Import ListNotations.
 From RV Require Import Model.PyVal Gen.GenImportant Model.Settings Proofs.SettingsP.
+From RV Require Import Gen.GenSettings.
 
 (** invocations / iterations / warmup, for a chain of ANY number of levels (lowest priority
     first): CLI override, else the highest-priority marked value, else the highest-priority value,
@@ -95,3 +96,15 @@ Example C02_example :
   /\ ival_result (rd_invocations (effective_list cli_none ls)) = Some 23%Z
   /\ ival_result (rd_invocations (effective_list {| cli_in := Some 5%Z; cli_it := None; cli_quick := false; cli_setup_only := false |} ls)) = Some 5%Z.
 Proof. vm_compute. repeat split; reflexivity. Qed.
+
+(** The three methods of ExpRunDetails on which everything above rests - compile (one level merged over the inherited details,
+    field by field), default and resolve_override_and_important - are translated from exp_run_details.py on every run
+    (Gen/GenSettings.v): every field is compiled from the key of its own name over the inherited value of its own name,
+    invocations / iterations / warmup through prefer_important, the others by plain replacement, the two command-line overrides
+    are inherited; the model's definitions ARE the translated ones. *)
+Theorem C02_compile_is_the_code :
+  (forall c d, compile_rd c d = gen_compile_rd c d)
+  /\ (forall i t, default_rd i t = gen_default_rd i t)
+  /\ (forall d, resolve d = gen_resolve d).
+Proof. repeat split; reflexivity. Qed.
+Print Assumptions C02_compile_is_the_code.
